@@ -98,6 +98,28 @@ func genC05(e *emitter, tier string, seed int64) {
 		}
 		lexCase(e, string(b), "bytes")
 	}
+	// 1b. string literals of every quote kind built from escapes, invalid bytes, multi-byte runes and plain
+	// text (several stray bytes after an escape, line breaks inside multi-line strings), closed or not
+	{
+		pieces := []string{"\\n", "\\t", "\\\\", "\\x41", "\\u00e9", "\\101", "\\\"", "\\'", "\xff", "\xfe\xfd", "\xc4\xe3\xba\xc3", "\x80", "\xe2\x82", "é", "😀", "\ufffd", "a", "b c", "\n", "%", "\\q", "\\x4", "\\"}
+		quotes := [][2]string{{"\"", "\""}, {"'", "'"}, {"'''", "'''"}, {"\"\"\"", "\"\"\""}, {"`", "`"}}
+		for i := 0; i < N/2; i++ {
+			var sb strings.Builder
+			q := quotes[rng.Intn(len(quotes))]
+			sb.WriteString(q[0])
+			for k := rng.Intn(10); k > 0; k-- {
+				if rng.Intn(3) == 0 {
+					sb.WriteString(pieces[8+rng.Intn(5)]) // invalid bytes
+				} else {
+					sb.WriteString(pieces[rng.Intn(len(pieces))])
+				}
+			}
+			if rng.Intn(6) != 0 {
+				sb.WriteString(q[1])
+			}
+			lexCase(e, []string{"x = ", "", "f(", "if "}[rng.Intn(4)]+sb.String()+[]string{"\n", "", ")", " {\n}\n"}[rng.Intn(4)], "string-literals")
+		}
+	}
 	// 2. token soups
 	toks := []string{"a", "b1", "_", "if", "elif", "else", "for", "in", "break", "continue", "true", "FALSE", "nil", "NULL", "1", "0x1f", "1.5", "1e3", "1e", "0x", "1.2.3", ".5", "08", "inf", "NaN",
 		"\"s\"", "'s'", "\"\\n\"", "\"\\x4\"", "\"\\u12\"", "\"unterminated", "'''m\nl'''", "\"\"\"a\"\"\"", "`q`", "`unterminated", "`é`",
@@ -170,7 +192,7 @@ func genC05(e *emitter, tier string, seed int64) {
 		}
 	}
 	// 4. named hard cases: unterminated strings/escapes, malformed numbers, deep nesting
-	hard := []string{"a = b / (c / 0)", "x = 10 % (0x)", "a / (1e)", "x = [1, (2 % 0)] + 1", "f(a = (1e))", "if (0x) {}", "for x in (1e) {}", "a[(0x)] = 1", "a =\u00a01\n", "x\u3000= 1", "\u2028", "if\u0085x {}", "a = \"\u00a0\" \u00a0", "-0x", "for a in 1e {}", "x = [1e", "\"abc", "\"abc\\", "\"\\", "\"\\u", "\"\\U0011000", "'''abc", "`abc", "1.2.3", "0x", "1e", "1e+", "08", "0b1", "1_0",
+	hard := []string{"x = \"\\t\xc4\xe3\xba\xc3\"\n", "\"\\\\\xff\xfe\xfd\"", "x = '''a\n\xff\xfe\xfd\xfc'''\n", "\"\"\"\\n\xff\xff\xff\"\"\"", "'\\x41\x80\x80\x80\x80'", "a = b / (c / 0)", "x = 10 % (0x)", "a / (1e)", "x = [1, (2 % 0)] + 1", "f(a = (1e))", "if (0x) {}", "for x in (1e) {}", "a[(0x)] = 1", "a =\u00a01\n", "x\u3000= 1", "\u2028", "if\u0085x {}", "a = \"\u00a0\" \u00a0", "-0x", "for a in 1e {}", "x = [1e", "\"abc", "\"abc\\", "\"\\", "\"\\u", "\"\\U0011000", "'''abc", "`abc", "1.2.3", "0x", "1e", "1e+", "08", "0b1", "1_0",
 		"a.b.c", "a..b", ".[0]", "a[", "a[1", "a[1:", "a[::", "f(", "f(1,", "f(,)", "{", "{\"a\"", "{\"a\":", "if", "if x", "if x {", "for", "for ;", "for ;;", "for x in", "elif x {}", "else {}",
 		"x = ", "= 1", "x == ", "1 +", "+", "!", "((((((", "))))", "[[[[", "]]]]", "{{{{", "}}}}", "\xff\xfe", "a\x00b", "\"\xff\"", "`\xff`", "'''\xff'''", "#", "# only comment", "\n\n\n", ";;;", "a;;b", "a\n;\nb",
 		strings.Repeat("(", 2000) + "1" + strings.Repeat(")", 2000), strings.Repeat("[", 2000) + strings.Repeat("]", 2000), strings.Repeat("-", 3000) + "1",
